@@ -1,6 +1,6 @@
 (* Props/C04.v — C04: the checksum is the CRC-32 of Annex A; PAT/PMT act only on verified sections. *)
 From TS Require Import Base.Res Gen.CrcTable Model.Timestamp Model.Packet Model.Crc Model.Psi Model.PesFilter Model.Demux
-  Spec.CrcSpec Proofs.CrcProofs Proofs.GateProofs.
+  Spec.CrcSpec Proofs.CrcProofs Proofs.GateProofs Proofs.TableProofs.
 Open Scope N_scope.
 
 (* the table-driven loop over the table found in the source equals the bitwise shift register *)
@@ -27,6 +27,14 @@ Theorem C04_gate_layer : forall cfg (IS CX EV : Type) inner (c : chain IS) (cx :
   crc_layer_section cfg IS CX EV inner c cx h tsh data origin = Ok r -> r = (c, cx, []).
 Proof. exact gate_layer. Qed.
 Print Assumptions C04_gate_layer.
+
+(* for a section spanning packets: whatever transmission completes in the re-assembly buffer with a non-zero sum
+   changes neither the table processor's state nor the context and produces no event (with C11_multi_applied,
+   which shows that [applied] is all that a multi-packet transmission does) *)
+Theorem C04_gate_multi : forall (IS CX EV : Type) inner (c : chain IS) (cx : CX) S, m_sum32 S <> 0 ->
+  applied false IS CX EV inner c cx S = Ok (set_buf IS c S Complete, cx, nil).
+Proof. intros IS CX EV inner c cx S. exact (applied_crc_bad false IS CX EV inner c cx S eq_refl). Qed.
+Print Assumptions C04_gate_multi.
 
 (* PAT and PMT handlers are built with that layer in the chain, and process packets through it only *)
 Theorem C04_gate_tables : forall fuzzing, cf_crc (table_cfg fuzzing) = true /\ cf_dedup (table_cfg fuzzing) = true /\
